@@ -55,4 +55,56 @@ theorem run_disc (hist : List Act) : ∀ (t : Two), Inv t.cur → (∀ a ∈ his
       simp only [run, List.map_cons, e, Prod.mk.injEq]
       exact ⟨h1, by rw [h2]⟩
 
+/-! ### `add` by an object whose list is stale: what a returning `add` leaves in the file (no invariant needed) -/
+
+theorem write_disk {s s' : State} (hd : s.dir = true) (h : write s = .ok s') :
+    s'.disk = some (s'.mem.map toDict) := by
+  unfold write at h
+  split at h
+  · cases h
+  · cases h
+    simp [hd]
+
+theorem writeOr_ok_disk (s0 s : State) (hd : s.dir = true) (hok : (writeOr s0 s).2 = .ok) :
+    (writeOr s0 s).1.disk = some ((writeOr s0 s).1.mem.map toDict) := by
+  unfold writeOr at hok ⊢
+  cases hw : write s with
+  | ok s' => exact write_disk hd hw
+  | error e => simp [hw] at hok
+
+def OkWritten (r : State × Res) : Prop := r.2 = .ok → r.1.disk = some (r.1.mem.map toDict)
+
+theorem addOp_okWritten (s : State) (j : Job) (kw : Option Nat) (hd : s.dir = true) :
+    OkWritten (addOp fixed s j kw) := by
+  unfold addOp
+  repeat' split
+  all_goals first
+    | (intro h; exact writeOr_ok_disk _ _ (by simpa using hd) h)
+    | (intro h; simp at h; done)
+    | (rename_i hf; simp [fixed] at hf; done)
+
+theorem write_dir {s s' : State} (h : write s = .ok s') : s'.dir = s.dir := by
+  unfold write at h
+  split at h
+  · cases h
+  · cases h; rfl
+
+theorem writeR_dir (s : State) : (writeR s).1.dir = s.dir := by
+  unfold writeR
+  cases hw : write s with
+  | ok s' => exact write_dir hw
+  | error e => rfl
+
+theorem construct_dir (s : State) : (construct fixed s).1.dir = true := by
+  unfold construct
+  cases hdisk : s.disk with
+  | some d => simp [hdisk, fixed]
+  | none => simp only [hdisk]; rw [writeR_dir]; simp [fixed]
+
+theorem switch_dir (t : Two) (hd : t.cur.dir = true) : (switch fixed t).cur.dir = true := by
+  unfold switch
+  split
+  · exact hd
+  · exact construct_dir _
+
 end PM.C19.Conc
